@@ -4,7 +4,11 @@ Inputs: per game three basic charts and two sets (`_specs`) plus three charts an
 (`_more_specs`: int-typed columns, ties, time 0 / negative / huge times, zero-length holds, non-default row labels on EVERY list, empty and
 one-row lists, an empty chart in the middle of a set).  Operations: every listed operation with the default and another value of each
 optional argument, write and write_file, boundary arguments whose result keeps all / no rows, a list used as the ARGUMENT of append.
-Sequences: scripted, the same operation twice on the same input, random sequences that also return to an input value.
+Sequences: scripted, the same operation twice on the same input, random sequences that also return to an input value; call - legitimate
+in-place change - call again (`_edit_ops`: list property +=, a frame cell, stack().offset, stack().loc, lists replaced by new lists): after
+such a step all snapshots are taken anew, only values that are documented copies of something must not have followed the change
+(`fresh_<op>_after_input_edit`).  write_file also to a path that already holds a longer file (twice); converters also with a negative
+column shift; the stack read for every column name that occurs in the chart's data.
 
 Dynamic twin of the effects clause: every listed operation is run on charts / lists / mapsets of all five games, every
 argument (and every value produced earlier in the sequence) is snapshotted before and compared after (values, columns,
@@ -36,6 +40,9 @@ class V:
 
     def __init__(self, obj, kind, game, origin, name=None):
         self.obj, self.kind, self.game, self.origin, self.name = obj, kind, game, origin, name
+        # values that may share state carry the same group: 0 = the inputs (a chart and its lists), a (documented) copy starts a new group,
+        # any other result (a slice, a converted chart, ...) stays in the group of what it was made from
+        self.group = 0
         self.snap = snapshot_any(obj)
 
     def refresh(self):
@@ -265,6 +272,98 @@ def _chart_ops():
     add("rate(1.0)", lambda s, c: s.rate(1.0), True, on="mapset")
     add("rate(0.5)", lambda s, c: s.rate(0.5), True, on="mapset")
     add("describe(rounding, unicode)", lambda s, c: s.describe(rounding=0, unicode=True), clause="describe", on="mapset", games={"sm", "o2j"})
+    # ---- file-system state, the full range of shift arguments, column names taken from the data
+    add("write_file(used path, twice)", lambda m, c: _write_file(m, used_path=True), clause="write", games={"osu", "qua", "bms"})
+    add("write_file(used path, twice)", lambda s, c: _write_file(s, used_path=True), clause="write", on="mapset", games={"sm"})
+    for g, on, base_nm, nm, f in _converter_negative_shifts():
+        add(nm, (lambda m, c, f=f: f(m)), True, clause="convert_" + base_nm, games={g}, on=on)
+    add("stack_read(every column of the data)", lambda m, c: _stack_read_all(m), clause="stack_read")
+    return ops
+
+
+def _converter_negative_shifts():
+    """move_right_by is an int: negative values too (legitimate where every source column is >= 1, e.g. the chart 'unsorted_labels')"""
+    from reamber.algorithms.convert import O2JToBMS, OsuToBMS, QuaToBMS
+
+    return [
+        ("osu", "chart", "OsuToBMS", "OsuToBMS(move_right_by=-1)", lambda m: OsuToBMS.convert(m, move_right_by=-1)),
+        ("qua", "chart", "QuaToBMS", "QuaToBMS(move_right_by=-1)", lambda m: QuaToBMS.convert(m, move_right_by=-1)),
+        ("o2j", "mapset", "O2JToBMS", "O2JToBMS(move_right_by=-1)", lambda s: O2JToBMS.convert(s, move_right_by=-1)),
+    ]
+
+
+def _stack_read_all(m):
+    """every column name that occurs in some list of the chart, read through the stack (names from the data, not from a table)"""
+    st = m.stack()
+    got = []
+    for col in sorted({str(c) for l in chart_lists(m).values() for c in l.df.columns}):
+        try:
+            got.append((col, len(getattr(st, col))))
+        except Exception as ex:  # (whether the stack offers the column is C12's business; here only the inputs are watched)
+            got.append((col, type(ex).__name__))
+    return got
+
+
+def _edit_ops():
+    """LEGITIMATE in-place changes of an input through public operations (list properties, a frame cell, the stack, assignment of a new
+    list).  They are steps of a sequence: f(x); change x; f(x) again - after such a step every snapshot is taken anew, except that values
+    documented as copies of something must not have followed the change."""
+    from reamber.base.lists.BpmList import BpmList
+
+    ops = []
+
+    def add(name, fn, on, cond=None):
+        ops.append(dict(name=name, clause="edit", on=on, copy=False, fn=fn, games=None, cond=cond, edit=True))
+
+    nonempty = lambda l: len(l) > 0  # noqa
+
+    def l_offset(l, c):
+        l.offset += 10
+
+    def l_cell(l, c):
+        j = l.df.columns.get_loc("offset")
+        l.df.iloc[len(l) - 1, j] = l.df.iloc[len(l) - 1, j] + 7
+
+    def l_bpm(l, c):
+        l.bpm *= 2
+
+    def l_column(l, c):
+        l.column += 1
+
+    def m_stack(m, c):
+        st = m.stack()
+        st.offset += 10
+
+    def m_stack_loc(m, c):
+        st = m.stack()
+        st.loc[st.offset >= 0, "offset"] += 5
+
+    def m_assign(m, c):
+        for name, l in chart_lists(m).items():
+            setattr(m, name, l.sorted(reverse=True))
+
+    def m_append(m, c):
+        for name, l in chart_lists(m).items():
+            if len(l):
+                setattr(m, name, l.append(l[0]))
+
+    def s_stack(ms, c):
+        st = ms.stack()
+        st.offset += 10
+
+    def s_first(ms, c):
+        ms.maps[0].hits.offset += 10
+
+    add("edit: offset += 10", l_offset, "list", nonempty)
+    add("edit: one cell of the offset column", l_cell, "list", nonempty)
+    add("edit: bpm *= 2", l_bpm, "list", lambda l: isinstance(l, BpmList) and len(l) > 0)
+    add("edit: column += 1", l_column, "list", lambda l: len(l) > 0 and "column" in l.df.columns)
+    add("edit: stack().offset += 10", m_stack, "chart")
+    add("edit: stack().loc[...] += 5", m_stack_loc, "chart")
+    add("edit: every list replaced by its reverse sort", m_assign, "chart")
+    add("edit: every list replaced by itself + its first item", m_append, "chart")
+    add("edit: stack().offset += 10", s_stack, "mapset")
+    add("edit: hits of the first chart += 10", s_first, "mapset", lambda ms: len(ms.maps) > 0 and len(ms.maps[0].hits) > 0)
     return ops
 
 
@@ -280,8 +379,9 @@ def _bms_write_layout(m):
     return m.write(BMSChannel.BMS)
 
 
-def _write_file(obj, bms_other=False):
-    """the *_file variant of write(): into a temporary file that is removed again; returns what was written"""
+def _write_file(obj, bms_other=False, used_path=False):
+    """the *_file variant of write(): into a temporary file that is removed again; returns what was written.
+    used_path: the path already holds another, longer file, and the object is written to it twice"""
     import os
     import tempfile
 
@@ -290,6 +390,10 @@ def _write_file(obj, bms_other=False):
     fd, p = tempfile.mkstemp(suffix=".c14")
     os.close(fd)
     try:
+        if used_path:
+            with open(p, "wb") as f:
+                f.write(b"#LEFTOVER 00\r\n" * 4000)
+            obj.write_file(p)
         if bms_other:
             obj.write_file(p, note_channel_config=BMSChannel.PMS_BME, no_sample_default=b"0Z")
         else:
@@ -313,7 +417,7 @@ _OPS = None
 def all_ops():
     global _OPS
     if _OPS is None:
-        _OPS = _list_ops() + _chart_ops() + _pattern_ops()
+        _OPS = _list_ops() + _chart_ops() + _pattern_ops() + _edit_ops()
         for i, o in enumerate(_OPS):
             o["id"] = f"{o['on']}:{o['name']}"
         assert len({o["id"] for o in _OPS}) == len(_OPS)
@@ -531,6 +635,7 @@ def _run_case(case, stats=None):
     by_id = {o["id"]: o for o in all_ops()}
     out = []
     last = None
+    makers = {}  # group -> (operation, step, key of its input) of the copy that started the group
     for k, (key, op_id) in enumerate(case["steps"]):
         if key not in vals:
             break  # the earlier step did not produce a chart / list / mapset (e.g. it raised): the sequence ends here
@@ -539,6 +644,28 @@ def _run_case(case, stats=None):
         if op not in ops_for(v):
             break
         raised = None
+        if op.get("edit"):
+            # a legitimate change of v (and of whatever v is part of): afterwards everything is what it is NOW - but a value that is a
+            # (documented) copy of something else has not followed the change
+            try:
+                op["fn"](v.obj, ctx)
+            except Exception as ex:
+                if stats is not None:
+                    stats.setdefault("ops_raising", {}).setdefault(op_id, f"{type(ex).__name__}: {ex}"[:120])
+                break
+            if stats is not None:
+                stats["edit_steps"] = stats.get("edit_steps", 0) + 1
+            for name, w in vals.items():
+                if w.group != v.group:
+                    d = diff(w.snap, snapshot_any(w.obj))
+                    if d and w.group in makers:
+                        cop, ck, ckey = makers[w.group]
+                        out.append((_clause(cop, "fresh") + "_after_input_edit", f"step {k}: {op['name']} on {v.origin} changed {w.origin}, which belongs to the copy made at step {ck} from {vals[ckey].origin}: {'; '.join(d[:3])}"))
+                    elif d and v.group in makers:
+                        cop, ck, ckey = makers[v.group]
+                        out.append((_clause(cop, "fresh"), f"step {k}: {op['name']} on {v.origin} (which belongs to the copy made at step {ck} from {vals[ckey].origin}) changed {w.origin}: {'; '.join(d[:3])}"))
+                w.refresh()
+            continue
         try:
             res = op["fn"](v.obj, ctx)
         except Exception as ex:
@@ -555,14 +682,24 @@ def _run_case(case, stats=None):
         if raised is not None:
             break
         rk = _kind_of(res)
+        if op.get("copy") and (CONVERTERS_ARE_COPIES or not op["clause"].startswith("convert_")):
+            made_copy = (op, k, key)
+        else:
+            made_copy = None
         first = res[0] if isinstance(res, list) and res and _kind_of(res[0]) in ("chart", "mapset") else None
         from reamber.algorithms.pattern.Pattern import Pattern
 
         if rk in ("chart", "mapset", "list") or isinstance(res, Pattern):
             vals[f"r{k}"] = V(res, rk, _game_of(res) or v.game, f"result of step {k} ({op['name']})")
+            if made_copy:
+                makers[k + 1] = made_copy
+                vals[f"r{k}"].group = k + 1
+            else:
+                vals[f"r{k}"].group = v.group
         elif first is not None:
             vals[f"r{k}"] = V(first, _kind_of(first), _game_of(first), f"first chart of the result of step {k} ({op['name']})")
             vals[f"r{k}all"] = V(res, "other", None, f"result of step {k} ({op['name']})")
+            vals[f"r{k}"].group = vals[f"r{k}all"].group = v.group
         last = (k, op, res, key)
     # the last result, when it is a copy, is changed in place: nothing else may change
     if last is not None and last[1]["copy"] and (CONVERTERS_ARE_COPIES or not last[1]["clause"].startswith("convert_")):
@@ -642,10 +779,14 @@ def _c14_game(rep, game):
             if key == "other" or (only_keys is not None and key not in only_keys):
                 continue
             for op in ops_for(v):
-                q.append([[key, op["id"]]])
+                if not op.get("edit"):
+                    q.append([[key, op["id"]]])
+            if key == "base":
+                # call - legitimate change - call again on the chart / mapset itself, right after its single operations
+                q += _call_edit_call(spec, vals, ("base",))
         # scripted sequences: pattern extraction then grouping, copies that are then written / converted / filtered, and the
         # same operation twice on the same input
-        return q + _scripted(spec, vals) + _twice(spec, vals)
+        return q + _scripted(spec, vals) + _twice(spec, vals) + _call_edit_call(spec, vals, ("hits", "holds", "bpms", "svs"))
 
     def phase(group, budget, only=None, list_share=1.0):
         """the cases of all objects of the group in turn (first case of every object, second case of every object, ...): when the time
@@ -701,8 +842,12 @@ def _c14_game(rep, game):
                  f"({len(rep.extra['operations'])} operation variants: each optional argument of the filters, converters, writers (write and write_file), full_ln, describe, rate with its default and another value; "
                  f"boundary arguments whose result keeps all / no rows) once on every input value (chart, each list, mapset, each chart of it; for the lists of the added objects a random half in the quick tier); the same operation twice on the same input; "
                  f"{M} (basic) / {M2} (added objects) random sequences of 2-3 operations per object; {n} cases")
+    rep.bound += ("; call - legitimate in-place change - call again: every chart / mapset level operation (and 9 list operations on the hit, hold, tempo and SV lists) followed by one of "
+                  f"{len(_edit_ops())} public in-place changes (list property +=, a frame cell, stack().offset, stack().loc, every list replaced by its reverse sort / by itself + an item) and the same operation again; "
+                  "these changes are also steps of the random sequences; write_file to a path that already holds a longer file, twice; converters with move_right_by=-1; the stack read for every column name found in the data")
     rep.rule = ("a case is (object, sequence of <= 3 operations): all inputs and earlier results are compared with their snapshots after every operation, "
-                "again after the last result (when a copy) has been changed in place, and the last result is compared again after its input has been changed in place")
+                "again after the last result (when a copy) has been changed in place, and the last result is compared again after its input has been changed in place; "
+                "after a step that is a legitimate change all snapshots are taken anew, copies made earlier must not have followed the change")
 
 
 def _twice(spec, vals):
@@ -725,6 +870,35 @@ def _twice(spec, vals):
                 oid = f"list:{nm}"
                 if oid in {o["id"] for o in ops_for(vals[key])}:
                     out.append([[key, oid], [key, oid]])
+    return out
+
+
+def _call_edit_call(spec, vals, keys):
+    """f(x); x changed in place through a public operation; f(x) again (stale state kept from the first call; a first call that already
+    changed x; a copy made by the first call that follows the change).  One edit per operation, the edits taken in turn."""
+    top = "mapset" if "maps" in spec else "chart"
+    out = []
+    for key in keys:
+        if key not in vals:
+            continue
+        v = vals[key]
+        have = ops_for(v)
+        edits = [o["id"] for o in have if o.get("edit")]
+        if not edits:
+            continue
+        if key == "base":
+            names = ["rate(1.5)", "write()", "write_file()", "write_file(used path, twice)", "deepcopy()", "full_ln()", "sv_normalize()", "scroll_speed()", "dominant_bpm()",
+                     "Pattern.from_note_lists", "hitsound_copy(src=m, tgt=other)", "hitsound_copy(src=other, tgt=m)", "stack_read", "describe()", "OsuToBMS", "OsuToQua", "OsuToSM",
+                     "QuaToBMS", "QuaToOsu", "QuaToSM", "BMSToOsu", "BMSToQua", "BMSToSM", "SMToOsu", "SMToQua", "SMToBMS", "O2JToOsu", "O2JToQua", "O2JToSM", "O2JToBMS", "O2JToSM_merge"]
+            ids = [f"{top}:{nm}" for nm in names]
+        else:
+            ids = [f"list:{nm}" for nm in ("sorted()", "after(t)", "append(list, sort)", "deepcopy()", "to_timing_map()", "current_bpm(t)", "to_yaml()", "write(keys)", "time_diff()")]
+        have_ids = {o["id"] for o in have}
+        i = 0
+        for oid in ids:
+            if oid in have_ids:
+                out.append([[key, oid], [key, edits[i % len(edits)]], [key, oid]])
+                i += 1
     return out
 
 
